@@ -352,7 +352,42 @@ func genG03(repo string, w *Out) error {
 		}
 		clears = ok1 && cl.pos < bi.pos
 	}
+	// writeResponse…: the write deadline armed for a response (WriteTimeout) is cleared again by a
+	// deferred SetWriteDeadline(time.Time{}) — otherwise it stays on the client connection of a tunnel
+	wrName := "proxyConn.writeResponseDeferTrace"
+	wrf, err := pc.Func(wrName)
+	if err != nil {
+		wrName = "proxyConn.writeResponse"
+		if wrf, err = pc.Func(wrName); err != nil {
+			return err
+		}
+	}
+	arms, deferredClear := false, false
+	ast.Inspect(wrf.Body, func(x ast.Node) bool {
+		switch z := x.(type) {
+		case *ast.CallExpr:
+			if strings.HasPrefix(pc.Src(z), "p.conn.SetWriteDeadline(time.Now().Add(") {
+				arms = true
+			}
+		case *ast.DeferStmt:
+			for _, c := range pc.CallsIn(z) {
+				if c == "p.conn.SetWriteDeadline(time.Time{})" {
+					deferredClear = true
+				}
+			}
+		}
+		return true
+	})
+	// also accepted: the tunnel itself clears it before the copiers start
+	if _, ok := g03Find(g03Calls(pc, tn.Body), "p.conn.SetWriteDeadline(time.Time{})"); ok {
+		deferredClear = true
+	}
+	if _, ok := g03Find(g03Calls(pc, tn.Body), "p.conn.SetDeadline(time.Time{})"); ok {
+		deferredClear = true
+		clears = true
+	}
 	w.DefBool("tunnel_clears_read_deadline", clears)
+	w.DefBool("response_write_deadline_cleared", !arms || deferredClear)
 	w.DefBool("tunnel_drain_first", df1 && df2)
 	w.DefBool("up_copier_reads_bufio", ub1 || ub2)
 
